@@ -4,6 +4,7 @@
 From Coq Require Import List ZArith Lia Bool Arith.
 From Coq Require Import Strings.Byte.
 From WH Require Import lib.Bytes gen.Extracted model.Vaa model.Explorer proofs.VaaProofs proofs.QuorumProofs proofs.ExplorerProofs.
+From WH Require model.Processor model.ProcSpec model.System model.Spy model.Contracts proofs.DbProofs proofs.SystemProofs.
 Import ListNotations.
 Open Scope Z_scope.
 
@@ -145,6 +146,76 @@ Proof.
   - vm_compute. repeat split; reflexivity.
 Qed.
 
+(* ================================================================== downstream acceptance chain (model/System.v) =================
+   What an honest guardian publishes (C01: [qvalid v (keys g)], the wire form [marshal v], and [gsidx v = gidx g] for a chain
+   observation) is accepted, byte for byte, by everything downstream.  (i) every peer's inbound path: C01_peers_store_what_a_guardian_
+   publishes.  (ii) the explorer: main.go's decode succeeds and Push enqueues (VAA, bytes), when the explorer's set list holds that
+   set at the index the VAA names, the message was not ingested before and the queue has room.  The recovery oracle of the explorer
+   is the one of the guardians (same vaa.VerifySignatures). *)
+Theorem C19_published_vaa_passes_the_explorer_gate :
+  forall recover keccak chain qcap est v g,
+    ProcSpec.qvalid recover keccak v (Processor.keys g) -> gsidx v = Processor.gidx g -> wf v ->
+    System.explorer_knows (p_gs est) g ->
+    ~ In (key_of v) (p_seen est) -> (length (p_queue est) < qcap)%nat ->
+    System.explorer_ingest recover keccak chain qcap est (marshal v) =
+    ({| p_gs := p_gs est; p_seen := key_of v :: p_seen est; p_queue := p_queue est ++ [(v, marshal v)] |}, Some PEnqueued).
+Proof. exact SystemProofs.explorer_accepts_published. Qed.
+
+(* the representability premise [wf v] follows from the quorum validity, a set of at most 255 keys and a representable message *)
+Theorem C19_published_vaa_is_wire_representable :
+  forall recover keccak v K, ProcSpec.qvalid recover keccak v K -> (length K <= 255)%nat -> wf (Processor.set_sigs v []) -> wf v.
+Proof. exact SystemProofs.qvalid_wf. Qed.
+
+(* (iii) the contracts: the Solidity and the Ralph parser read the fields the Go serializer wrote, hash the same pre-image (the
+   body; layouts extracted from Messages.sol / governance.ral, C04), and both signature-count tests (extracted formulas and
+   comparison directions, C07) pass for the size of that set *)
+Theorem C19_published_vaa_is_parsed_and_counted_by_both_contracts :
+  forall recover keccak v K, ProcSpec.qvalid recover keccak v K -> wf v ->
+  Contracts.sol_parse (marshal v) =
+    Some {| Contracts.sv_header := Contracts.go_header_fields v; Contracts.sv_sigs := map Contracts.go_sig_fields (sigs v);
+            Contracts.sv_body := Contracts.go_body_fields v; Contracts.sv_payload := payload v; Contracts.sv_hashed := body v |} /\
+  System.sol_accepts_count (length K) (marshal v) = true /\
+  Contracts.ral_parse (marshal v) =
+    Some {| Contracts.rv_gsidx := gsidx v; Contracts.rv_numsigs := Z.of_nat (length (sigs v));
+            Contracts.rv_sig_records := map (fun s => (s_idx s, s_data s)) (sigs v); Contracts.rv_hashed := body v;
+            Contracts.rv_echain := echain v; Contracts.rv_tchain := tchain v; Contracts.rv_eaddr := eaddr v; Contracts.rv_seq := seq v;
+            Contracts.rv_payload := payload v |} /\
+  System.ral_accepts_count (length K) (marshal v) = true.
+Proof. exact SystemProofs.contracts_accept_published. Qed.
+
+(* (iv) the spy: Publish(bytes) sends to exactly the subscriptions without filters or with a filter equal to the VAA's emitter —
+   for every iteration order of the subscription map — and reports no error *)
+Theorem C19_published_vaa_reaches_exactly_the_matching_spy_subscribers :
+  forall v subs, wf v -> NoDup (map fst subs) ->
+  snd (System.spy_plan subs (marshal v)) = false /\
+  forall i s, Spy.lookup i subs = Some s -> (In i (fst (System.spy_plan subs (marshal v))) <-> System.spy_matches v s).
+Proof. exact SystemProofs.spy_delivers_to_matching. Qed.
+
+(* non-vacuity: a VAA signed by the single member of set 1 (toy oracles; recovery = first 20 bytes of the signature) passes all four *)
+Definition dx_key : bytes := repeat x05 20.
+Definition dx_sig : bytes := dx_key ++ repeat x00 45.
+Definition dx_recover (h s : bytes) : option bytes := Some (firstn 20 s).
+Definition dx_keccak (b : bytes) : bytes := repeat x00 32.
+Definition dx_g : Processor.gset := {| Processor.keys := [dx_key]; Processor.gidx := 1 |}.
+Definition dx_v : vaa := {| version := 1; gsidx := 1; sigs := [{| s_idx := 0; s_data := dx_sig |}]; ts := 7; tns := 0; nonce := 0; echain := 2;
+                            tchain := 0; eaddr := repeat x02 32; seq := 9; cl := 1; payload := [x01] |}.
+Definition dx_store : store := {| cur := 1; lists := [ex_set 0; {| g_index := 1; g_keys := Some [dx_key] |}] |}.
+Definition dx_subs : list (Spy.id * Spy.sub) :=
+  [(1, Spy.new_sub []); (2, Spy.new_sub [{| Spy.f_chain := 2; Spy.f_addr := repeat x02 32 |}]); (3, Spy.new_sub [{| Spy.f_chain := 4; Spy.f_addr := repeat x02 32 |}])].
+Example C19_downstream_chain_premises_satisfiable :
+  ProcSpec.qvalid dx_recover dx_keccak dx_v (Processor.keys dx_g) /\ gsidx dx_v = Processor.gidx dx_g /\ wf dx_v /\
+  System.explorer_knows dx_store dx_g /\ NoDup (map fst dx_subs) /\
+  snd (System.explorer_ingest dx_recover dx_keccak (fun _ _ => None) 4 {| p_gs := dx_store; p_seen := []; p_queue := [] |} (marshal dx_v)) = Some PEnqueued /\
+  System.sol_accepts_count 1 (marshal dx_v) = true /\ System.ral_accepts_count 1 (marshal dx_v) = true /\
+  fst (System.spy_plan dx_subs (marshal dx_v)) = [1; 2].
+Proof.
+  split; [split; [apply verify_sigs_iff; vm_compute; reflexivity|vm_compute; intros H; discriminate H]|].
+  split; [reflexivity|]. split; [apply DbProofs.wfb_wf; vm_compute; reflexivity|].
+  split; [split; [vm_compute; intros H; discriminate H|reflexivity]|].
+  split; [repeat constructor; cbn; intuition discriminate|].
+  repeat apply conj; vm_compute; reflexivity.
+Qed.
+
 Print Assumptions C19_push_gate.
 Print Assumptions C19_push_gate_named_set.
 Print Assumptions C19_queue_only_through_gate.
@@ -158,3 +229,7 @@ Print Assumptions C19_unlocked_reader_refuted.
 Print Assumptions C19_any_number_of_lookups_and_appends.
 Print Assumptions C19_readers_are_locked.
 Print Assumptions C19_guard_outside_lock_refuted.
+Print Assumptions C19_published_vaa_passes_the_explorer_gate.
+Print Assumptions C19_published_vaa_is_wire_representable.
+Print Assumptions C19_published_vaa_is_parsed_and_counted_by_both_contracts.
+Print Assumptions C19_published_vaa_reaches_exactly_the_matching_spy_subscribers.
